@@ -259,6 +259,39 @@ async fn mirror(ctx: &mut Ctx, ty: &str, state: &str, how: &str, case: &Value) {
         "after-traffic" => {
             let _ = exchange_with(&mut sock, &peers[0], 1).await;
         }
+        "peer-stalled-with-full-buffer" => {
+            // one peer stops accepting data while the socket keeps sending to it
+            if ty == "PUB" || ty == "XPUB" {
+                peers[0].send(&[vec![1u8]]);
+                peers[1].send(&[vec![1u8]]);
+                if ty == "XPUB" {
+                    let _ = recv_now(&mut sock).await;
+                    let _ = recv_now(&mut sock).await;
+                }
+                sim::settle().await;
+            }
+            peers[0].conn.set_credit(Some(5));
+            if sock.can_send() {
+                for k in 0..6u32 {
+                    let msg = match ty {
+                        "ROUTER" => vec![peers[0].id.clone(), vec![7u8; 60_000]],
+                        _ => vec![vec![b't'], vec![k as u8; 60_000]],
+                    };
+                    if ty == "REP" {
+                        peers[0].send(&[vec![], b"rq".to_vec()]);
+                        let _ = recv_now(&mut sock).await;
+                    }
+                    // a send that cannot complete is abandoned (as a timeout would)
+                    let mut m = sim::Managed::new(sock.send(&msg));
+                    let _ = m.drive().await;
+                    drop(m);
+                    if ty == "REQ" {
+                        break;
+                    }
+                }
+                ctx.count("mirror_stalled_peer_with_data_queued");
+            }
+        }
         _ => {}
     }
     match how {
@@ -311,7 +344,7 @@ impl Prop for C17 {
     fn cases(&self, tier: Tier, seed: u64) -> Vec<Value> {
         let mut v = Vec::new();
         for ty in ALL_TYPES {
-            for state in ["idle", "recv-pending-dropped", "after-traffic"] {
+            for state in ["idle", "recv-pending-dropped", "after-traffic", "peer-stalled-with-full-buffer"] {
                 for how in ["close", "drop"] {
                     v.push(json!({"kind": "mirror", "ty": ty, "state": state, "how": how}));
                 }
@@ -377,7 +410,8 @@ impl Prop for C17 {
 
     fn floors(&self, tier: Tier) -> Vec<(&'static str, u64)> {
         vec![
-            ("mirror_cases", 54),
+            ("mirror_cases", 72),
+            ("mirror_stalled_peer_with_data_queued", 10),
             ("rig_cases", tier.pick(120, 270)),
             ("rig_transport/tcp4", 90),
             ("rig_transport/tcp6", 10),
